@@ -21,6 +21,8 @@ func C08(c *core.Ctx) {
 		conn("S", "s", true),
 		sub("S", 21, "a", 1), sub("S", 22, "a/#", 0), sub("S", 23, "+", 2), sub("S", 24, "#", 1),
 		{Kind: "sub", Client: "S", ID: 25, Filters: []string{"a", "a/#"}, QoSs: []byte{1, 2}},
+		// several filters with the granted QoS going down: each retained message is downgraded by its own filter only
+		{Kind: "sub", Client: "S", ID: 27, Filters: []string{"a/#", "b", "a"}, QoSs: []byte{2, 0, 1}},
 		unsub("S", 26, "a"), {Kind: "disconnect", Client: "S"},
 		{Kind: "lpub", Topic: "a", QoS: 1, Retain: true, Payload: "L1"}, {Kind: "lsub", Client: "L", Filters: []string{"a/#"}, QoSs: []byte{1}},
 	}
